@@ -19,6 +19,8 @@ pub enum Act {
     Leaky(f64),
     HardTanh,
     HardSigmoid,
+    /// the same layer listed twice in a row (idempotent for ReLU / hard tanh, not for leaky / hard sigmoid)
+    Twice(u8), // 0 relu, 1 leaky(0.5), 2 hard tanh, 3 hard sigmoid
 }
 
 #[derive(Clone, Copy, Debug, PartialEq)]
@@ -84,6 +86,11 @@ impl Net {
                     Act::Leaky(a) => v.push(Layer::LeakyReLU(i, a)),
                     Act::HardTanh => v.push(Layer::HardTanh(i)),
                     Act::HardSigmoid => v.push(Layer::HardSigmoid(i)),
+                    Act::Twice(k) => {
+                        for _ in 0..2 {
+                            v.push(match k { 0 => Layer::ReLU(i), 1 => Layer::LeakyReLU(i, 0.5), 2 => Layer::HardTanh(i), _ => Layer::HardSigmoid(i) });
+                        }
+                    }
                 }
             }
         }
@@ -127,6 +134,11 @@ impl Net {
                     Act::Leaky(a) => layers.push(RLayer::Leaky(i, Q::from_f64(a))),
                     Act::HardTanh => layers.push(RLayer::HardTanh(i, Q::int(-1), Q::int(1))),
                     Act::HardSigmoid => layers.push(RLayer::HardSigmoid(i)),
+                    Act::Twice(k) => {
+                        for _ in 0..2 {
+                            layers.push(match k { 0 => RLayer::Relu(i), 1 => RLayer::Leaky(i, Q::frac(1, 2)), 2 => RLayer::HardTanh(i, Q::int(-1), Q::int(1)), _ => RLayer::HardSigmoid(i) });
+                        }
+                    }
                 }
             }
         }
@@ -150,6 +162,10 @@ impl Net {
         let mut class = 0u8;
         for (bi, b) in self.blocks.iter().enumerate() {
             for a in &b.acts {
+                if let Act::Twice(3) = a {
+                    class = 2; // 1/6 in front of another non-linearity
+                    continue;
+                }
                 let nondyadic = match a {
                     Act::HardSigmoid => true,
                     Act::Leaky(al) => {
@@ -336,6 +352,7 @@ fn pres(n: usize) -> Vec<Pre> {
 
 pub fn families(tier: Tier) -> Vec<Family> {
     let acts_all = vec![Act::Relu, Act::Leaky(0.5), Act::Leaky(-1.0), Act::HardTanh, Act::HardSigmoid];
+    let acts_twice = vec![Act::Twice(0), Act::Twice(1), Act::Twice(2), Act::Twice(3), Act::Relu];
     let mut v = vec![];
     match tier {
         Tier::Quick => {
@@ -347,6 +364,8 @@ pub fn families(tier: Tier) -> Vec<Family> {
                 v.push(Family { n: 2, widths: vec![2, 2], ident, values: vec![1.0, -1.0], acts: vec![Act::Relu, Act::HardTanh, Act::Leaky(0.5)], heads: true, pres: vec![], budget: 3 });
             }
             v.push(Family { n: 2, widths: vec![2, 2], ident: true, values: vec![-1.0, 2.0], acts: vec![Act::Relu, Act::HardTanh], heads: true, pres: pres(2), budget: 4 });
+            v.push(Family { n: 1, widths: vec![1, 1], ident: true, values: vec![1.0, -1.0, 2.0, 0.5], acts: acts_twice.clone(), heads: false, pres: vec![], budget: 4 });
+            v.push(Family { n: 2, widths: vec![2], ident: true, values: vec![1.0, -1.0], acts: acts_twice.clone(), heads: true, pres: vec![], budget: 4 });
         }
         Tier::Thorough => {
             for ident in [false, true] {
@@ -361,6 +380,8 @@ pub fn families(tier: Tier) -> Vec<Family> {
             }
             v.push(Family { n: 2, widths: vec![2, 2], ident: true, values: vec![-1.0, 2.0, 0.5], acts: vec![Act::Relu, Act::HardTanh, Act::Leaky(0.5)], heads: true, pres: pres(2), budget: 5 });
             v.push(Family { n: 3, widths: vec![2], ident: true, values: vec![1.0, -1.0], acts: vec![Act::Relu, Act::HardTanh], heads: true, pres: vec![], budget: 4 });
+            v.push(Family { n: 1, widths: vec![1, 1], ident: true, values: vec![1.0, -1.0, 2.0, 0.5], acts: acts_twice.clone(), heads: false, pres: pres(1), budget: 5 });
+            v.push(Family { n: 2, widths: vec![2, 2], ident: true, values: vec![1.0, -1.0], acts: acts_twice.clone(), heads: true, pres: vec![], budget: 4 });
         }
     }
     v
